@@ -261,6 +261,7 @@ func TestC09Child(t *testing.T) {
 			fmt.Printf("CHILD-RESULT %d prepare-error %v\n", n, err)
 			continue
 		}
+		idleA := idleStr(tm.TargetsInfo().IdleAt)
 		lim := syscall.Rlimit{Cur: uint64(n), Max: orig.Max}
 		if err := syscall.Setrlimit(syscall.RLIMIT_FSIZE, &lim); err != nil {
 			fmt.Printf("CHILD-RESULT %d rlimit-error %v\n", n, err)
@@ -274,9 +275,16 @@ func TestC09Child(t *testing.T) {
 				continue
 			}
 		}
-		fmt.Printf("CHILD-RESULT %d done %v\n", n, werr != nil)
+		fmt.Printf("CHILD-RESULT %d done %v %s %s\n", n, werr != nil, idleA, idleStr(tm.TargetsInfo().IdleAt))
 	}
 	os.Exit(0)
+}
+
+func idleStr(t *time.Time) string {
+	if t == nil {
+		return "nil"
+	}
+	return fmt.Sprint(t.UnixNano())
 }
 
 type tornCase struct {
@@ -350,11 +358,13 @@ func runTorn(rec *vkit.Recorder, c *tornCase, full bool) []vkit.Violation {
 		return []vkit.Violation{{Key: "C09/harness-child-failed", Msg: fmt.Sprintf("%v: %s", err, out)}}
 	}
 	done := map[int]string{}
+	idles := map[int][2]string{}
 	for _, line := range strings.Split(string(out), "\n") {
 		var n int
-		var what, rest string
-		if k, _ := fmt.Sscanf(line, "CHILD-RESULT %d %s %s", &n, &what, &rest); k >= 2 {
+		var what, rest, ia, ib string
+		if k, _ := fmt.Sscanf(line, "CHILD-RESULT %d %s %s %s %s", &n, &what, &rest, &ia, &ib); k >= 2 {
 			done[n] = what + " " + rest
+			idles[n] = [2]string{ia, ib}
 		}
 	}
 	wantA, wantB := canonAssign(c.A), canonAssign(c.B)
@@ -381,6 +391,18 @@ func runTorn(rec *vkit.Recorder, c *tornCase, full bool) []vkit.Violation {
 			okA, okB := got == wantA, got == wantB
 			if c.Retry {
 				okA = false || wantA == wantB
+			}
+			// the idle-since time belongs to the assignment that is resumed
+			if id, have := idles[n]; have && id[0] != "" && wantA != wantB {
+				gotIdle := idleStr(tm.TargetsInfo().IdleAt)
+				if okA && !c.Retry && gotIdle != id[0] {
+					vs = append(vs, vkit.Violation{Key: "C09/torn-write/idle-since-of-resumed-assignment", Msg: fmt.Sprintf("write of B stopped at byte %d of %d: the previous assignment is resumed but idle-since is %s, acknowledged was %s", n, size, gotIdle, id[0])})
+					break
+				}
+				if okB && gotIdle != id[1] {
+					vs = append(vs, vkit.Violation{Key: "C09/torn-write/idle-since-of-resumed-assignment", Msg: fmt.Sprintf("write of B stopped at byte %d of %d: the new assignment is resumed but idle-since is %s, the writer had %s", n, size, gotIdle, id[1])})
+					break
+				}
 			}
 			if !okA && !okB {
 				k := "C09/torn-write/neither-old-nor-new"
